@@ -141,6 +141,18 @@ def run(ck):
                 ck.check(diff_verdict(d), "C08.R3", fname, f.site(), "%s: %s" % (fname, diff_msg(d)))
                 wr = [e for e in p.effects if "param:x" in e.origins]
                 ck.check(not wr and r.obj.origin == "fresh", "C08.R1", fname + ":pure", f.site(), "%s modifies or returns its argument" % fname)
+    # ------------------------------------------------------------------ R5 history independence (two-call protocol)
+    from .history import check_history
+
+    for cls in STATES:
+        for oname in ("SigmaX", "SigmaY", "SigmaZ", "NeighbourInteraction/periodic"):
+            def mk(it, cls=cls, oname=oname):
+                s = make_state(it, cls)
+                return (s, api.observable_instances(it, prog)[oname], tens(it, "samples", ("B", "nv")))
+
+            check_history(ck, "C08.R5", "%s/%s" % (oname, cls), prog.method(oname.split("/")[0], "apply").site(), mk,
+                          lambda it, c: call(it, c[1], "apply", c[0], c[2]), max_paths=40)
+    ck.require_min("C08.R5", 12)
     ck.require_min("C08.R1", 50)
     ck.require_min("C08.R2", 48)
     ck.require_min("C08.R3", 40)
